@@ -661,7 +661,7 @@ class _NodeHandler:
         # requests still waiting for a reply on this connection end now (client sees the loss)
         t = self.cluster.loop._vtime
         for a in self.cluster.arrivals:
-            if a.conn == conn.conn_id and a.t_end is None:
+            if a.conn == conn.conn_id and (a.t_end is None or a.t_end > t):
                 a.t_end = t
 
     def on_frame(self, conn, frame, t_written=None):
